@@ -48,6 +48,7 @@ struct rule { long seq; int err; long short_n; int used; };
 static int g_active = 0;          /* tracking on */
 static int g_have_key = 0;
 static uint64_t g_key_state = 0;
+static uint64_t g_key_initial = 0;
 static char g_root[512];
 static size_t g_root_len = 0;
 static int g_logfd = -1;
@@ -107,7 +108,7 @@ __attribute__((constructor)) static void trusim_init(void) {
     const char *log = getenv("TRUSIM_LOG");
     const char *key = getenv("TRUSIM_KEY");
     const char *plan = getenv("TRUSIM_PLAN");
-    if (key && *key) { g_have_key = 1; g_key_state = strtoull(key, NULL, 0); }
+    if (key && *key) { g_have_key = 1; g_key_state = strtoull(key, NULL, 0); g_key_initial = g_key_state; }
     if (root && *root && strlen(root) < sizeof g_root - 2) {
         strcpy(g_root, root);
         g_root_len = strlen(g_root);
@@ -193,6 +194,15 @@ ssize_t getrandom(void *buf, size_t len, unsigned int flags) {
     }
     logev(-1, "getrandom", -1, "-", (long)len, (long)len, 0, 1);
     return (ssize_t)len;
+}
+
+/* ------------------------------------------------------------------- getpid */
+/* The process id is one more thing that differs between launches.  Under a key it is a function of
+ * the key, so that a pid that leaks into an output (a temp-file name, a diagnostic) shows up as a
+ * difference between keys and replays exactly. */
+pid_t getpid(void) {
+    if (!g_have_key) return (pid_t)raw(SYS_getpid, 0, 0, 0, 0);
+    return (pid_t)(1000 + (g_key_initial * 2654435761ull >> 7) % 30000);
 }
 
 /* --------------------------------------------------------------------- open */
